@@ -39,6 +39,11 @@ RULE = ("stream cases = random selection under the subscription field (depth<=2:
         "spellings as mergeable duplicates, split selections, fragments, skipped siblings; plus a bounded-exhaustive block over all failure patterns of 3 events x 2 failing fields. "
         "distinct non-trivial = distinct canonical case with >=2 events or a refusal")
 ASSUMPTIONS = [
+    "`subscription { __typename }` VALIDATES on every schema (June 2018 rule 5.2.3.1 only counts the collected root fields; the 2021 "
+    "edition forbids introspection fields at the subscription root, June 2018 does not) and is then REFUSED by subscribe() with the "
+    "documented RuntimeError ('Subscription field __typename should provide a subscription resolver'), before anything is called or "
+    "consumed: a refusal of a validated operation that no schema author can avoid; it is the statement's 'field without a subscription "
+    "resolver' clause, not a violation (hunt2 C05/3; refusal kind meta-typename-field)",
     "a stream that never ends is reported only after CONFIRMATION: hang = no observable progress (pull, gate, result, resolver call) during N loop iterations of the private single-threaded loop (no wall-clock bound), or for thread-offloaded resolvers no progress for 15 s; the case is then re-run alone with 20x the iteration bound / 90 s without progress; a 300 s wall-clock bound only produces infrastructure notes",
     "the consumer follows the sequential AsyncMap protocol: it awaits one __anext__ at a time (overlapping processing of two events on the shared executor is outside the statement)",
     "the source stream is finite and its items are the events; field resolvers raise only ResolverError",
@@ -65,7 +70,7 @@ REFUSALS = ["multi-field", "no-sub-resolver", "unknown-field", "query-op", "muta
             "multi-expanded", "zero-fields", "opsel-unknown", "opsel-ambiguous", "vars", "shorthand-op", "named-query-op", "query-op-missing-var",
             "null-arg-var", "null-include-var", "null-skip-var",
             "meta-schema-field", "meta-type-field", "blocking-runtime-missing-var", "threadpool-runtime-missing-var",
-            "mutation-op-unsupported"]
+            "mutation-op-unsupported", "meta-typename-field"]
 EXPECTED_EXC = {
     "multi-field": "ExecutionError",
     "no-sub-resolver": "RuntimeError",
@@ -91,6 +96,7 @@ EXPECTED_EXC = {
     "meta-type-field": "RuntimeError",        # subscription { root: __type(name: "Evt") {…} }
     "blocking-runtime-missing-var": "RuntimeError",    # the runtime is refused whatever the variables are
     "threadpool-runtime-missing-var": "RuntimeError",
+    "meta-typename-field": "RuntimeError",    # subscription { __typename }: validates (June 2018), the meta field has no subscription resolver
     "mutation-op-unsupported": "RuntimeError",         # a mutation on a schema WITHOUT mutation type is still "not a subscription"
 }
 LEAF = ("a", "ad", "bad", "badd")
@@ -277,6 +283,8 @@ def default_root(case):
         return [{"leaf": "MS"}]
     if r == "meta-type-field":
         return [{"leaf": "MT"}]
+    if r == "meta-typename-field":
+        return [{"leaf": "MN"}]
     return [{"leaf": "R"}]
 
 
@@ -300,7 +308,7 @@ def collected_keys(root):
     return keys
 
 
-LEAF_KEY = {"R": "root", "Ra": "root", "Rb": "root", "O": "other", "O2": "other2", "Os": None, "Rs": None, "N": "root", "U": "root", "MS": "root", "MT": "root"}
+LEAF_KEY = {"R": "root", "Ra": "root", "Rb": "root", "O": "other", "O2": "other2", "Os": None, "Rs": None, "N": "root", "U": "root", "MS": "root", "MT": "root", "MN": "root"}
 
 
 def gen_case(rng):
@@ -416,6 +424,7 @@ def render_root(case):
         "U": "root: nothere { zz: a }",
         "MS": "root: __schema { queryType { name } }",
         "MT": "root: __type(name: \"Evt\") { name }",
+        "MN": "root: __typename",
     }
     frags = []
 
@@ -1153,7 +1162,7 @@ def model_request(case):
         "operation": {"query-op": "query", "mutation-op": "mutation", "shorthand-op": "query", "named-query-op": "query", "query-op-missing-var": "query", "mutation-op-unsupported": "mutation"}.get(r, "subscription"),
         "root": model_root(root_of(case)),
         "fieldDefined": r not in ("unknown-field", "meta-schema-field", "meta-type-field"),
-        "hasSubResolver": r != "no-sub-resolver",
+        "hasSubResolver": r not in ("no-sub-resolver", "meta-typename-field"),
         "streamRuntime": r not in ("blocking-runtime", "threadpool-runtime", "blocking-runtime-missing-var", "threadpool-runtime-missing-var"),
         "opsel": "error" if r in ("opsel-unknown", "opsel-ambiguous") else "ok",
         "vars": "error" if r in ("vars", "query-op-missing-var", "blocking-runtime-missing-var", "threadpool-runtime-missing-var") else "ok",
